@@ -657,4 +657,383 @@ theorem claimTail_pv {s s' : St} {c : Bool} {u b bo : Nat} (h : claimTail s c u 
     exact (updateEnergyAndProgress_pv h2).trans (compoundMove_pv h1)
   · exact payReward_pv h
 
+/-! ## endpoints -/
+
+/-- one `bind` of a do-block (much cheaper than `simp only [endpoint, …]` on a long body) -/
+theorem peel {α β : Type} {x : Option α} {f : α → Option β} {b : β} (h : (x >>= f) = some b) :
+    ∃ a, x = some a ∧ f a = some b := Option.bind_eq_some_iff.mp h
+
+theorem PosInv.of_pv {s s' : St} (hI : PosInv s) (h : pv s' = pv s) : PosInv s' :=
+  PosInv.ofPV (hI.toPV.of_eq h)
+
+theorem enterCore_posInv {s s' : St} {caller orig tokenTo amt : Nat} {extra : List (Nat × Nat)} {o : Out}
+    (hI : PosInv s) (hc : caller ∈ s.users) (ht : tokenTo ∈ s.users)
+    (h : enterCore s caller orig tokenTo amt extra = some (s', o)) : PosInv s' := by
+  simp only [enterCore, Option.bind_eq_bind, Option.bind_eq_some_iff, req_eq_some, Option.pure_def,
+    Option.some.injEq, Prod.mk.injEq] at h
+  obtain ⟨_, _, s0, h0, ⟨s1, boosted⟩, h1, s1', h1', _, hact, s2, h2, ⟨s4, c1⟩, h4, merged, hm,
+    ⟨s5, n⟩, h5, s6, h6, s8, h8, s9, h9, rfl, rfl⟩ := h
+  have e0 := takePayments_pv extra h0
+  have e1 : pv s1 = pv s0 := claimOnlyBoostedPayment_pv (s := addFarming s0 amt) h1
+  have e1' := payRewardIf_pv h1'
+  have e2 := checkAndUpdate_pv extra h2
+  obtain ⟨e4, hc1⟩ := generate_pv h4
+  have e4' : pv s4 = (pv s2).inc orig amt := e4
+  have m1 : merged.amt = amt + paySum extra := (mergeParts_amt extra hm).1
+  have m2 : merged.owner = orig := (mergeParts_amt extra hm).2
+  have e5 := createToken_pv h5
+  have e6 := setFarmSupplyWeek_pv h6
+  have e8 := payRewardIf_pv h8
+  have e8' : pv s8 = { pv s6 with supply := c1.supply + amt } := e8
+  have e9 := updateEnergyAndProgress_pv h9
+  have hsup : c1.supply = (pv s1').supply := hc1
+  clear h0 h1 h1' h2 h4 hm h5 h6 h8 h9 e4 e8 hc1
+  rw [e1', e1] at e2 hsup
+  have key := hI.toPV.remint (amt := amt) hc ht e0 e2 m1 m2
+  apply PosInv.ofPV
+  rw [e9, e8', e6, e5, e4', hsup]
+  exact key
+
+theorem claimCore_posInv {s s' : St} {caller orig : Nat} {pays : List (Nat × Nat)} {cmp : Bool} {o : Out}
+    (hI : PosInv s) (hc : caller ∈ s.users)
+    (h : claimCore s caller orig pays cmp = some (s', o)) : PosInv s' := by
+  unfold claimCore at h
+  replace h := peel h; obtain ⟨⟨n1, a1⟩, hhead, h⟩ := h
+  replace h := peel h; obtain ⟨s0, h0, h⟩ := h
+  replace h := peel h; obtain ⟨_, _, h⟩ := h
+  replace h := peel h; obtain ⟨_, _, h⟩ := h
+  replace h := peel h; obtain ⟨at1, hat, h⟩ := h
+  replace h := peel h; obtain ⟨⟨s1, c1⟩, h1, h⟩ := h
+  replace h := peel h; obtain ⟨part, hpart, h⟩ := h
+  replace h := peel h; obtain ⟨⟨s2, boosted⟩, h2, h⟩ := h
+  replace h := peel h; obtain ⟨res, _, h⟩ := h
+  replace h := peel h; obtain ⟨s3, h3, h⟩ := h
+  replace h := peel h; obtain ⟨merged, hm, h⟩ := h
+  replace h := peel h; obtain ⟨⟨s5, n⟩, h5, h⟩ := h
+  replace h := peel h; obtain ⟨s6, h6, h⟩ := h
+  replace h := peel h; obtain ⟨s8, h8, h⟩ := h
+  simp only [Option.pure_def, Option.some.injEq, Prod.mk.injEq] at h
+  obtain ⟨rfl, _⟩ := h
+  have e0 := takePayments_pv pays h0
+  obtain ⟨e1, hc1⟩ := generate_pv h1
+  have e2 := claimBoostedYields_pv h2
+  have e3 := checkAndUpdate_pv pays h3
+  obtain ⟨m1, m2⟩ := mergeParts_amt _ hm
+  have p1 := intoPart_amt hpart
+  have e5 := createToken_pv h5
+  have e6 := setFarmSupplyWeek_pv h6
+  have e8 := claimTail_pv h8
+  have hsup : c1.supply = (pv s0).supply := hc1
+  clear h0 h1 h2 h3 hm h5 h6 h8 hc1 hat hpart
+  dsimp only at e3 m1 m2 e5 e6 e8
+  generalize baseReward s1.dsc c1.rps a1 part.rps = B at *
+  rw [e2, e1] at e3
+  obtain ⟨rest, rfl⟩ : ∃ rest, pays = (n1, a1) :: rest := by
+    cases pays with
+    | nil => simp at hhead
+    | cons p rest =>
+      simp only [List.head?_cons, Option.some.injEq] at hhead
+      exact ⟨rest, by rw [hhead]⟩
+  simp only [List.tail_cons] at m1
+  apply PosInv.ofPV
+  cases cmp
+  · simp only [Bool.false_eq_true, if_false] at m1 m2 e5 e8
+    have e8' : pv s8 = { pv s6 with supply := c1.supply } := e8
+    have key := hI.toPV.remint (amt := 0) hc hc e0 e3 (merged := merged)
+      (by rw [m1, p1]; simp only [paySum]; omega) m2
+    rw [PV.inc_zero] at key
+    rw [e8', e6, e5, hsup]
+    exact key
+  · simp only [if_true] at m1 m2 e5 e8
+    have e8' : pv s8 = { pv s6 with supply := c1.supply + (B + boosted) } := e8
+    have e5' : pv s5 = ((pv s3).inc orig (B + boosted)).create caller merged := e5
+    have key := hI.toPV.remint (amt := B + boosted) hc hc e0 e3 (merged := merged)
+      (by rw [m1, p1]; simp only [paySum]; omega) m2
+    rw [e8', e6, e5', hsup]
+    exact key
+
+theorem exitFarm_posInv {s s' : St} {caller : Nat} {opt : Option Nat} {n a : Nat} {o : Out}
+    (hI : PosInv s) (hc : caller ∈ s.users)
+    (h : exitFarm s caller opt n a = some (s', o)) : PosInv s' := by
+  unfold exitFarm at h
+  replace h := peel h; obtain ⟨orig, _, h⟩ := h
+  replace h := peel h; obtain ⟨s0, h0, h⟩ := h
+  replace h := peel h; obtain ⟨_, _, h⟩ := h
+  replace h := peel h; obtain ⟨att, hat, h⟩ := h
+  replace h := peel h; obtain ⟨⟨s1, c1⟩, h1, h⟩ := h
+  replace h := peel h; obtain ⟨part, hpart, h⟩ := h
+  replace h := peel h; obtain ⟨⟨s2, boosted⟩, h2, h⟩ := h
+  replace h := peel h; obtain ⟨res, _, h⟩ := h
+  replace h := peel h; obtain ⟨sup, hsup, h⟩ := h
+  replace h := peel h; obtain ⟨s4, h4, h⟩ := h
+  replace h := peel h; obtain ⟨pen, hpen, h⟩ := h
+  replace h := peel h; obtain ⟨out, _, h⟩ := h
+  replace h := peel h; obtain ⟨s6, h6, h⟩ := h
+  replace h := peel h; obtain ⟨s7, h7, h⟩ := h
+  replace h := peel h; obtain ⟨s8, h8, h⟩ := h
+  simp only [Option.pure_def, Option.some.injEq, Prod.mk.injEq] at h
+  obtain ⟨rfl, _⟩ := h
+  obtain ⟨_, rfl⟩ := sub?_eq_some.mp hsup
+  have e0 := takePayments_pv _ h0
+  obtain ⟨e1, hc1⟩ := generate_pv h1
+  have e2 := claimBoostedYields_pv h2
+  have e4 := setFarmSupplyWeek_pv h4
+  have e4' : pv s4 = (pv s2).dec att.owner a := e4
+  have e6 := removeFarming_pv h6
+  have e6' : pv s6 = { pv s4 with supply := c1.supply - part.amt } := e6
+  have e7 := payReward_pv h7
+  have e8 := clearUserEnergyIfNeeded_pv h8
+  have p1 := intoPart_amt hpart
+  have hs : c1.supply = (pv s0).supply := hc1
+  have hat' : (pv s0).attrs n = some att := hat
+  clear h0 h1 h2 h4 h6 h7 h8 hpart hpen e4 e6 hc1 hat hsup
+  obtain ⟨_, key⟩ := hI.toPV.exit hc e0 hat'
+  apply PosInv.ofPV
+  rw [e8, e7, e6', e4', e2, e1, hs, p1]
+  exact key
+
+theorem mergeFarmTokens_posInv {s s' : St} {caller : Nat} {opt : Option Nat} {pays : List (Nat × Nat)} {o : Out}
+    (hI : PosInv s) (hc : caller ∈ s.users)
+    (h : mergeFarmTokens s caller opt pays = some (s', o)) : PosInv s' := by
+  simp only [mergeFarmTokens, Option.bind_eq_bind, Option.bind_eq_some_iff, req_eq_some, Option.pure_def,
+    Option.some.injEq, Prod.mk.injEq] at h
+  obtain ⟨_, hact, orig, _, _, _, s0, h0, ⟨s1, boosted⟩, h1, s2, h2, merged, hm, ⟨s3, n⟩, h3, s4, h4, rfl, rfl⟩ := h
+  have e0 := takePayments_pv pays h0
+  have e1 := claimOnlyBoostedPayment_pv h1
+  have e2 := checkAndUpdate_pv pays h2
+  have m1 := mergeAll_amt hm
+  have e3 := createToken_pv h3
+  have e4 := payReward_pv h4
+  clear h0 h1 h2 h3 h4 hm
+  rw [e1] at e2
+  have key := hI.toPV.remint0 (merged := { merged with owner := orig }) hc hc e0 e2 m1 rfl
+  apply PosInv.ofPV
+  rw [e4, e3]
+  exact key
+
+theorem claimBoostedRewards_posInv {s s' : St} {caller : Nat} {optUser : Option Nat} {o : Out}
+    (hI : PosInv s) (h : claimBoostedRewards s caller optUser = some (s', o)) : PosInv s' := by
+  simp only [claimBoostedRewards, Option.bind_eq_bind, Option.bind_eq_some_iff, req_eq_some, Option.pure_def,
+    Option.some.injEq, Prod.mk.injEq, sub?_eq_some] at h
+  obtain ⟨_, _, _, _, _, hact, ⟨s1, c1⟩, h1, ⟨s2, boosted⟩, h2, res, ⟨hle, rfl⟩, s3, h3, s4, h4, rfl, rfl⟩ := h
+  obtain ⟨e1, hc1⟩ := generate_pv h1
+  have e2 := claimBoostedYields_pv h2
+  have e3 := setFarmSupplyWeek_pv h3
+  have e4 := payReward_pv h4
+  have hs : c1.supply = (pv s).supply := hc1
+  clear h1 h2 h3 h4 hc1
+  apply hI.of_pv
+  show ({ pv s4 with supply := c1.supply } : PV) = _
+  rw [e4, e3, e2, e1, hs]
+
+theorem settle_pv {s s' : St} (h : settle s = some s') : pv s' = pv s := by
+  simp only [settle, Option.bind_eq_bind, Option.bind_eq_some_iff, Option.pure_def, Option.some.injEq] at h
+  obtain ⟨⟨s1, c1⟩, h1, rfl⟩ := h
+  obtain ⟨e1, hc1⟩ := generate_pv h1
+  have hs : c1.supply = (pv s).supply := hc1
+  show ({ pv s1 with supply := c1.supply } : PV) = _
+  rw [e1, hs]
+
+theorem transfer_posInv {s s' : St} {src dst n a : Nat} (hI : PosInv s) (hs : src ∈ s.users)
+    (hd : dst ∈ s.users) (h : transfer s src dst n a = some s') : PosInv s' := by
+  simp only [transfer, Option.bind_eq_bind, Option.bind_eq_some_iff, req_eq_some, sub?_eq_some,
+    Option.pure_def, Option.some.injEq] at h
+  obtain ⟨_, _, _, _, _, hsome, _, ⟨hle, rfl⟩, rfl⟩ := h
+  exact PosInv.ofPV (hI.toPV.transfer hs hd hsome hle)
+
+theorem init_posInv (kind : Kind) (sameTok : Bool) (dsc perBlock : Nat) (produce : Bool) (users : List Nat)
+    (e0 : Nat) (hnd : users.Nodup) : PosInv (init kind sameTok dsc perBlock produce users e0) := by
+  refine ⟨hnd, fun u n h => absurd rfl h, fun _ _ => rfl, ?_, fun o => ?_⟩
+  · show 0 = ((List.range 1).map _).sum
+    simp only [List.range_one, List.map_cons, List.map_nil, List.sum_cons, List.sum_nil, Nat.add_zero]
+    exact (PV.sum_map_zero (fun _ _ => rfl)).symm
+  · show 0 = ((List.range 1).map _).sum
+    simp only [List.range_one, List.map_cons, List.map_nil, List.sum_cons, List.sum_nil, Nat.add_zero]
+    show 0 = if _ then _ else 0
+    rw [if_neg]
+    show ¬ (none : Option Nat) = some o
+    exact fun e => by cases e
+
+/-- C07: every operation preserves the position-token invariant -/
+theorem step_posInv {s s' : St} {op : Op} {o : Out} (hI : PosInv s) (h : step s op = some (s', o)) :
+    PosInv s' := by
+  cases op <;> simp only [step, known] at h
+  case enter c oo a e =>
+    split at h <;> [skip; exact absurd h (by simp)]
+    rename_i hc
+    simp only [enterFarm, Option.bind_eq_bind, Option.bind_eq_some_iff] at h
+    obtain ⟨_, _, h⟩ := h
+    exact enterCore_posInv hI hc hc h
+  case enterOB c u a e =>
+    split at h <;> [skip; exact absurd h (by simp)]
+    rename_i hc
+    simp only [enterFarmOnBehalf, Option.bind_eq_bind, Option.bind_eq_some_iff] at h
+    obtain ⟨_, _, _, _, h⟩ := h
+    exact enterCore_posInv hI hc hc h
+  case claim c oo p =>
+    split at h <;> [skip; exact absurd h (by simp)]
+    rename_i hc
+    simp only [claimRewards, Option.bind_eq_bind, Option.bind_eq_some_iff] at h
+    obtain ⟨_, _, h⟩ := h
+    exact claimCore_posInv hI hc h
+  case claimOB c p =>
+    split at h <;> [skip; exact absurd h (by simp)]
+    rename_i hc
+    simp only [claimRewardsOnBehalf, Option.bind_eq_bind, Option.bind_eq_some_iff] at h
+    obtain ⟨_, _, _, _, _, _, h⟩ := h
+    exact claimCore_posInv hI hc h
+  case compound c oo p =>
+    split at h <;> [skip; exact absurd h (by simp)]
+    rename_i hc
+    simp only [compoundRewards, Option.bind_eq_bind, Option.bind_eq_some_iff, req_eq_some] at h
+    obtain ⟨_, hk, _, _, h⟩ := h
+    exact claimCore_posInv hI hc h
+  case exit c oo n a =>
+    split at h <;> [skip; exact absurd h (by simp)]
+    rename_i hc
+    exact exitFarm_posInv hI hc h
+  case merge c oo p =>
+    split at h <;> [skip; exact absurd h (by simp)]
+    rename_i hc
+    exact mergeFarmTokens_posInv hI hc h
+  case claimBoosted c u =>
+    split at h <;> [skip; exact absurd h (by simp)]
+    exact claimBoostedRewards_posInv hI h
+  case transfer a b n x =>
+    split at h <;> [skip; exact absurd h (by simp)]
+    rename_i ha
+    split at h <;> [skip; exact absurd h (by simp)]
+    rename_i hb
+    simp only [noOut, Option.map_eq_some_iff, Prod.mk.injEq] at h
+    obtain ⟨s1, h1, rfl, _⟩ := h
+    exact transfer_posInv hI ha hb h1
+  case setEnergy u a l t =>
+    simp only [Option.some.injEq, Prod.mk.injEq] at h
+    obtain ⟨rfl, _⟩ := h
+    exact hI.of_pv rfl
+  case updateEnergy u =>
+    simp only [noOut, Option.map_eq_some_iff, Prod.mk.injEq] at h
+    obtain ⟨s1, h1, rfl, _⟩ := h
+    simp only [updateEnergyForUser, Option.bind_eq_bind, Option.bind_eq_some_iff, Option.pure_def,
+      Option.some.injEq] at h1
+    obtain ⟨_, _, _, _, rfl⟩ := h1
+    exact hI.of_pv rfl
+  case setPerBlock c x =>
+    simp only [noOut, Option.map_eq_some_iff, Prod.mk.injEq] at h
+    obtain ⟨s1, h1, rfl, _⟩ := h
+    simp only [setPerBlock, Option.bind_eq_bind, Option.bind_eq_some_iff, Option.pure_def,
+      Option.some.injEq] at h1
+    obtain ⟨_, _, _, _, s2, h2, rfl⟩ := h1
+    have e2 := settle_pv h2
+    exact hI.of_pv e2
+  case startProduce c =>
+    simp only [noOut, Option.map_eq_some_iff, Prod.mk.injEq] at h
+    obtain ⟨s1, h1, rfl, _⟩ := h
+    simp only [startProduce, Option.bind_eq_bind, Option.bind_eq_some_iff, Option.pure_def,
+      Option.some.injEq] at h1
+    obtain ⟨_, _, _, _, _, _, rfl⟩ := h1
+    exact hI.of_pv rfl
+  case endProduce c =>
+    simp only [noOut, Option.map_eq_some_iff, Prod.mk.injEq] at h
+    obtain ⟨s1, h1, rfl, _⟩ := h
+    simp only [endProduce, Option.bind_eq_bind, Option.bind_eq_some_iff, Option.pure_def,
+      Option.some.injEq] at h1
+    obtain ⟨_, _, s2, h2, rfl⟩ := h1
+    have e2 := settle_pv h2
+    exact hI.of_pv e2
+  case setPct c p =>
+    simp only [noOut, Option.map_eq_some_iff, Prod.mk.injEq] at h
+    obtain ⟨s1, h1, rfl, _⟩ := h
+    simp only [setPct, Option.bind_eq_bind, Option.bind_eq_some_iff, Option.pure_def,
+      Option.some.injEq] at h1
+    obtain ⟨_, _, _, _, s2, h2, rfl⟩ := h1
+    have e2 := settle_pv h2
+    exact hI.of_pv e2
+  case setFactors c f =>
+    simp only [noOut, Option.map_eq_some_iff, Prod.mk.injEq] at h
+    obtain ⟨s1, h1, rfl, _⟩ := h
+    simp only [setFactors, Option.bind_eq_bind, Option.bind_eq_some_iff, Option.pure_def] at h1
+    obtain ⟨_, _, _, _, W, _, h1⟩ := h1
+    split at h1
+    · simp only [Option.bind_eq_some_iff, Option.some.injEq] at h1
+      obtain ⟨_, _, rfl⟩ := h1
+      exact hI.of_pv rfl
+    · simp only [Option.some.injEq] at h1
+      subst h1
+      exact hI.of_pv rfl
+  case collect c =>
+    simp only [noOut, Option.map_eq_some_iff, Prod.mk.injEq] at h
+    obtain ⟨s1, h1, rfl, _⟩ := h
+    simp only [collectUndistributed, Option.bind_eq_bind, Option.bind_eq_some_iff, Option.pure_def,
+      req_eq_some] at h1
+    obtain ⟨_, _, W, _, _, _, h1⟩ := h1
+    split at h1 <;> simp only [Option.some.injEq] at h1 <;> subst h1 <;> exact hI.of_pv rfl
+  case pause c =>
+    simp only [noOut, Option.map_eq_some_iff, Prod.mk.injEq] at h
+    obtain ⟨s1, h1, rfl, _⟩ := h
+    simp only [setActive, Option.bind_eq_bind, Option.bind_eq_some_iff, Option.pure_def,
+      Option.some.injEq] at h1
+    obtain ⟨_, _, rfl⟩ := h1
+    exact hI.of_pv rfl
+  case resume c =>
+    simp only [noOut, Option.map_eq_some_iff, Prod.mk.injEq] at h
+    obtain ⟨s1, h1, rfl, _⟩ := h
+    simp only [setActive, Option.bind_eq_bind, Option.bind_eq_some_iff, Option.pure_def,
+      Option.some.injEq] at h1
+    obtain ⟨_, _, rfl⟩ := h1
+    exact hI.of_pv rfl
+  case setPenalty c p =>
+    simp only [noOut, Option.map_eq_some_iff, Prod.mk.injEq] at h
+    obtain ⟨s1, h1, rfl, _⟩ := h
+    simp only [setPenalty, Option.bind_eq_bind, Option.bind_eq_some_iff, Option.pure_def,
+      Option.some.injEq] at h1
+    obtain ⟨_, _, _, _, rfl⟩ := h1
+    exact hI.of_pv rfl
+  case setMinEpochs c n =>
+    simp only [noOut, Option.map_eq_some_iff, Prod.mk.injEq] at h
+    obtain ⟨s1, h1, rfl, _⟩ := h
+    simp only [setMinEpochs, Option.bind_eq_bind, Option.bind_eq_some_iff, Option.pure_def,
+      Option.some.injEq] at h1
+    obtain ⟨_, _, _, _, rfl⟩ := h1
+    exact hI.of_pv rfl
+  case hubWhitelist u a =>
+    split at h
+    · cases h
+    · simp only [Option.some.injEq, Prod.mk.injEq] at h; obtain ⟨rfl, _⟩ := h; exact hI.of_pv rfl
+  case hubRemove u a =>
+    split at h
+    · simp only [Option.some.injEq, Prod.mk.injEq] at h; obtain ⟨rfl, _⟩ := h; exact hI.of_pv rfl
+    · cases h
+  case hubBlacklist a =>
+    simp only [Option.some.injEq, Prod.mk.injEq] at h; obtain ⟨rfl, _⟩ := h; exact hI.of_pv rfl
+  case scWhitelist a =>
+    split at h
+    · cases h
+    · simp only [Option.some.injEq, Prod.mk.injEq] at h; obtain ⟨rfl, _⟩ := h; exact hI.of_pv rfl
+  case scUnwhitelist a =>
+    split at h
+    · simp only [Option.some.injEq, Prod.mk.injEq] at h; obtain ⟨rfl, _⟩ := h; exact hI.of_pv rfl
+    · cases h
+  case advance b e =>
+    split at h
+    · simp only [Option.some.injEq, Prod.mk.injEq] at h; obtain ⟨rfl, _⟩ := h; exact hI.of_pv rfl
+    · cases h
+  case bad => cases h
+
+/-- C07: the position-token invariant holds along every history -/
+theorem run_posInv (ops : List Op) {s : St} (hI : PosInv s) : PosInv (run s ops) := by
+  induction ops generalizing s with
+  | nil => exact hI
+  | cons op rest ih =>
+    simp only [run, List.foldl_cons]
+    cases hs : step s op with
+    | none => exact ih hI
+    | some r => exact ih (step_posInv hI (show step s op = some (r.1, r.2) from hs))
+
+/-- C07 in every reachable state of a world with distinct accounts -/
+theorem reachable_posInv (kind : Kind) (sameTok : Bool) (dsc perBlock : Nat) (produce : Bool)
+    (users : List Nat) (e0 : Nat) (hnd : users.Nodup) (ops : List Op) :
+    PosInv (run (init kind sameTok dsc perBlock produce users e0) ops) :=
+  run_posInv ops (init_posInv kind sameTok dsc perBlock produce users e0 hnd)
+
 end Mx.Farm
